@@ -69,14 +69,15 @@ def cases(tier, seed, shard, nshards):
     if True:
         r = rng_for(seed, shard, "c17")
         for _ in range(tier_pick(tier, 20000, 2000000) // nshards):
-            ks = [r.choice(KEYS + ["Author", "author", "AUTHOR", "é", "É", "title", "booktitle"]) for _ in range(r.choice([6, 7, 8, 8, 12, 30]))]
+            ks = [r.choice(KEYS + ["Author", "author", "AUTHOR", "é", "É", "title", "booktitle", "straße", "µ", "ς", "ſ", "ﬁ"]) for _ in range(r.choice([6, 7, 8, 8, 12, 30]))]
             which = r.random()
             if which < .2:
                 mw = ["alpha"]
             elif which < .4:
                 mw = ["norm"]
             else:
-                mw = ["custom", list(r.choice(ORDERS)), r.random() < .5]
+                mw = ["custom", list(r.choice(ORDERS)), r.random() < .5] if r.random() < .6 else \
+                     ["custom", r.sample(["straße", "µ", "ς", "ſ", "ﬁ", "zz", "b"], r.randint(1, 3)), r.random() < .5]
             yield {"keys": ks, "mw": mw}
 
 
